@@ -6,6 +6,7 @@
 package gostatix
 
 import (
+	"github.com/kwertop/gostatix/internal/util"
 	"github.com/redis/go-redis/v9"
 )
 
@@ -134,3 +135,17 @@ func VerifTopKRedisState(t *TopKRedis) (uint, float64, float64, *CountMinSketchR
 
 // VerifTopKElement exposes the unexported fields of a TopKElement.
 func VerifTopKElement(e TopKElement) (string, uint64) { return e.element, e.count }
+
+// ---- sizing formulas of internal/util (not importable from outside the module) ----
+
+func VerifCalcFilterSize(length uint, errorRate float64) uint {
+	return util.CalculateFilterSize(length, errorRate)
+}
+
+func VerifCalcNumHashes(size, length uint) uint { return util.CalculateNumHashes(size, length) }
+
+func VerifCalcFingerPrintLength(size uint64, errorRate float64) uint64 {
+	return util.CalculateFingerPrintLength(size, errorRate)
+}
+
+func VerifRandomKey() string { return util.GenerateRandomString(16) }
